@@ -1629,9 +1629,14 @@ func (e *Entry) merge(prefix *Value, namespace *Value, oe *Entry) {
 			e.addError(er.Errors[0])
 		} else {
 			v.Parent = e
-			v.Exts = append(v.Exts, oe.Exts...)
-			for lk := range oe.Extra {
-				v.Extra[lk] = append(v.Extra[lk], oe.Extra[lk]...)
+			if _, included := oe.Node.(*Module); !included {
+				// The statements of a uses or augment (if-feature, when,
+				// extensions) also apply to the nodes it places; those of
+				// an included submodule (belongs-to, revision, ...) do not.
+				v.Exts = append(v.Exts, oe.Exts...)
+				for lk := range oe.Extra {
+					v.Extra[lk] = append(v.Extra[lk], oe.Extra[lk]...)
+				}
 			}
 			e.Dir[k] = v
 		}
